@@ -12,6 +12,14 @@ The oracle is independent of the Coq model: the clauses of the property are
 evaluated on the implementation's outputs (fresh-object replays for twin /
 independence / reset / restore; range and one-draw-per-call tests against the
 recorded generator outputs).
+
+Second tie: on every run the bodies of the MersenneTwister methods are
+translated from the source text of the tree under test
+(translator/py2gallina_streams.py, fail-closed) and coq/Streams/GenAgree.v
+proves the translated definitions equal to the hand-written model; the last
+section of Props/C12.v is re-checked against them (c12lib.StreamsTree).  When
+that tie breaks, more histories are searched with the oracle for a concrete
+failing input; only if none is found the line ends no-failing-input-found.
 """
 from __future__ import annotations
 
@@ -22,9 +30,11 @@ from pathlib import Path
 
 sys.path.insert(0, str(Path(__file__).resolve().parent))
 import common as C
+import c12lib as L
 
 PID = "C12"
-TARGETS = ["Streams/StreamProofs.vo", "Props/C12.vo"]
+# built in coq/ (independent of the source text); Gen_Streams / GenAgree / Props are compiled per tree (c12lib.StreamsTree)
+TARGETS = ["Streams/StreamProofs.vo"]
 TWO53 = 2 ** 53
 TWO52 = 2 ** 52
 TABLE_LEN = 44
@@ -603,7 +613,13 @@ CORPUS = [
 # ------------------------------------------------------------------ main
 def main(tier: str) -> int:
     run = C.Run(PID, tier)
-    proofs_ok = run.check_proofs(TARGETS, extra_tb=[
+    try:
+        tree = L.StreamsTree().prepare()
+    except Exception as exc:  # noqa
+        run.violation("translated-model-not-buildable", f"the model could not be regenerated from the source: {type(exc).__name__}: {exc}",
+                      {"unchecked": "coq/Streams/GenAgree.v"}, found_input=False)
+        return run.finish()
+    proofs_ok = L.check_proofs(run, tree, TARGETS, extra_tb=[
         "random.Random (CPython) is abstract in the theorems: raw(seed, n) = n-th output after seeding, state = (seed, position), "
         "getstate/setstate copy that pair; validated on every explored history against random.Random(seed) recorded in the harness",
         "binary64 arithmetic of next_int modelled in Z (round-to-nearest-even of the width and of the product); cross-checked "
@@ -663,6 +679,23 @@ def main(tier: str) -> int:
     for case, outs in evaluated[n_corpus:n_corpus + 2]:
         run.add_sample({"case": {k: v for k, v in case.items() if k != "table"}, "impl_outputs": outs})
 
+    # ---- the regenerated model no longer equals the proved one: look harder for a concrete failing input
+    tie = tree.broken_for(PID)
+    if tie and not impl_fail:
+        rng2 = random.Random(run.seed * 7919 + 1212)
+        tried = 0
+        for n in range(n_random):
+            case = gen_case(rng2, "scripted" if n % 3 == 2 else "real", real_pool)
+            tried += 1
+            try:
+                bad = oracle(case, run_impl(case))
+            except Exception:  # noqa
+                continue
+            if bad:
+                impl_fail = (case, bad)
+                break
+        run.cov["extra_cases_searched_after_broken_tie"] = tried
+
     if impl_fail:
         case, (sig, what) = impl_fail
 
@@ -717,6 +750,9 @@ def main(tier: str) -> int:
                       {"case": case, "impl_outputs": outs, "model_outputs": dout[-3000:], "relation": "Streams.Stream.case_ok",
                        "mismatching_cases": len(mism)},
                       found_input=False)
+    if tie and not impl_fail:
+        L.report_broken_tie(run, tree, "the clause-by-clause oracle on the implementation's outputs",
+                            {"model_impl_mismatching_cases": len(mism)})
     if not proofs_ok and not run.violations:
         run.violation("proof-broken", "a C12 proof obligation no longer checks: " + getattr(run, "proof_log", "")[-800:],
                       {"theorems": run.cov.get("theorems")}, found_input=False)
